@@ -102,7 +102,7 @@ def run(case):
     for what, fn, cover in (("best", lambda: continuum.get_best_alignment(dissim), False),
                             ("soft", lambda: continuum.get_best_soft_alignment(dissim), True)):
         per = {}
-        for cfg in ac.CONFIGS:
+        for cfg in ac.configs_for(case):
             name = ac.config_name(cfg)
             al, err, flt = ac.call_under(cfg, fn)
             if cfg["mode"] != "none":
